@@ -80,7 +80,9 @@ def trace(n0, k, a, z_from, z_to, theta_emit, direct, top, n_index=None):
     or raises ValueError when such a ray never reaches z_to."""
     n_from = n0 - k * math.exp(a * z_from)
     beta = n_from * math.sin(theta_emit)
-    up = math.cos(theta_emit) > 0
+    # a launch that is horizontal to rounding (the limiting direct ray at max_angle, emitted at its own
+    # turning depth) is bent downwards by the index gradient
+    up = math.cos(theta_emit) > 1e-9
     if not (0 <= beta < n0):
         raise ValueError("beta=%r outside [0, n0)" % beta)
     zt = turning_depth(n0, k, a, beta) if beta > 0 else float("inf")
